@@ -302,3 +302,94 @@ def fold_traversals(ck: Checker, R: str):
             'cycle': 'check_circuit_has_no_cycles accepts every acyclic model circuit and raises CircuitValidationError exactly when a cycle is reachable from the outputs',
         }[name] + f' ({n} traversals folded over the model-circuit family)', '; '.join(probs[name][:2]), construct=f'{fname} over the circuit family')
     ck.assume('the traversals are folded (worklist loops unrolled under a step budget, generators run to completion) over a bounded family of model circuits; larger circuits are covered only by the structural rules')
+
+
+def fold_codec(ck: Checker, R: str):
+    """encode_circuit then decode_circuit folded on model circuits (C16): either a codec error, or a circuit with the same
+    numbers of inputs, outputs and gates and the same truth table; circuits within the format always round-trip."""
+    import random
+    repo = ck.repo
+    M = real_model(repo)
+    it = M.interp
+    it.real_super = True
+    enc = repo.mod('cirbo.circuits_db.circuits_encoding')
+    encode = RepoFunc(it, enc, enc.func('encode_circuit'))
+    decode = RepoFunc(it, enc, enc.func('decode_circuit'))
+    table = it.global_value(enc, '_gate_type_to_int')
+    fmt = sorted(t.var for t in table)
+    ga = RepoFunc(it, enc, enc.func('_get_arity'))
+    arity = {t: ga(M.types[t]) for t in fmt}
+    rnd = random.Random(160)
+    names = ['q', 'm', 'z', 'c', 'w', 'e', 'u', 'k', 'p', 'd', 'v', 'h', 'r', 'j']
+    cases = []
+    for _ in range(40 if ck.tier == 'quick' else 400):
+        n_in = rnd.choice((1, 2, 3, 4))
+        n_g = rnd.randint(0, 6)
+        nm = rnd.sample(names, n_in + n_g)
+        spec = [(nm[i], 'INPUT', ()) for i in range(n_in)]
+        inside = True
+        for j in range(n_g):
+            avail = [s[0] for s in spec]
+            if rnd.random() < 0.12:
+                # outside the format: another operand count, or a type the format does not list
+                t = rnd.choice(['AND', 'XOR', 'NOT', 'LIFF'])
+                k = rnd.choice((1, 3)) if t in ('AND', 'XOR') else (2 if t == 'NOT' else 2)
+                inside = False
+            else:
+                t = rnd.choice(fmt)
+                k = arity[t]
+            spec.append((nm[n_in + j], t, tuple(rnd.choice(avail) for _ in range(k))))
+        labels = [s[0] for s in spec]
+        outs = [rnd.choice(labels) for _ in range(rnd.randint(0, 3))]
+        stored = spec if rnd.random() < 0.5 else [x for x in spec if x[1] == 'INPUT'] + [x for x in spec if x[1] != 'INPUT'][::-1]
+        cases.append((spec, outs, stored, rnd.random() < 0.3, inside))
+    probs = []
+    n_rt = n_ref = 0
+    from .compose_fold import state_values
+    for spec, outs, stored, reorder, inside in cases:
+        c = M.new_circuit(stored, outs)
+        if reorder:
+            c._d['_inputs'].reverse()
+        inputs = list(c._d['_inputs'])
+        desc = f'{[(l, t) + tuple(o) for l, t, o in stored if t != "INPUT"]} (storage order) inputs {inputs} outputs {list(outs)}'
+        it.steps = 0
+        M.den.interp.steps = 0
+        try:
+            data = encode(c)
+        except InterpRaise as e:
+            n_ref += 1
+            if e.exc_name != 'CircuitEncodingError':
+                probs.append(f'encoding raises {e.exc_name} (not a codec error) on {desc}')
+            elif inside:
+                probs.append(f'a circuit that uses only the types and operand counts of the format is refused on {desc}')
+            continue
+        it.steps = 0
+        try:
+            back = decode(data)
+        except InterpRaise as e:
+            probs.append(f'the encoder\'s own output is not decodable ({e.exc_name}) on {desc}')
+            continue
+        n_rt += 1
+        b = back._d
+        s0 = cm.snapshot(c)
+        if (len(b['_inputs']), len(b['_outputs']), len(b['_gates'])) != (len(inputs), len(outs), len(s0['gates'])):
+            probs.append(f'decoded circuit has {len(b["_inputs"])} inputs, {len(b["_outputs"])} outputs, {len(b["_gates"])} gates instead of {len(inputs)}, {len(outs)}, {len(s0["gates"])} on {desc}')
+            continue
+        if cm.invariant_problems(back):
+            probs.append(f'decoded circuit is not well formed ({cm.invariant_problems(back)[0]}) on {desc}')
+            continue
+        try:
+            for bits in itertools.product((False, True), repeat=len(inputs)):
+                v0 = state_values(c, dict(zip(inputs, bits)))
+                v1 = state_values(back, dict(zip(b['_inputs'], bits)))
+                if [v0[o] for o in outs] != [v1[o] for o in b['_outputs']]:
+                    probs.append(f'decoded circuit computes {[v1[o] for o in b["_outputs"]]} instead of {[v0[o] for o in outs]} on inputs {bits}: {desc}')
+                    break
+        except TypeError:
+            probs.append(f'a gate with an operand count its operator does not take was encoded instead of refused on {desc}')
+        if len(probs) > 3:
+            break
+    ck.check(not probs, R, enc, enc.func('encode_circuit'), f'encode_circuit / decode_circuit folded over {len(cases)} model circuits (every type of the format, storage in any order, re-ordered inputs, repeated and input outputs, '
+             f'gates outside the format): {n_rt} round trips give the same numbers of inputs, outputs and gates and the same truth table, {n_ref} circuits are refused with CircuitEncodingError, none inside the format',
+             '; '.join(probs[:2]), construct='encode_circuit / decode_circuit over the circuit family')
+    ck.assume('the codec is folded (bit writer and reader included) over a bounded family of model circuits with <= 4 inputs and <= 6 gates')
